@@ -164,17 +164,23 @@ def build_image(tools, img, cfg, recipe, blobdir, rnd, index_dirs=True):
     return True, ''
 
 # ---- extra, generated population on top of a template (Hypothesis draws the op tuples) ----
-# op = (kind, a, b): 0 dir with `a` entries of name length `b`; 1 regular file of size a*b bytes (+1 if b odd); 2 symlink of length a; 3 xattr (value length a) on a new file; 4 sparse file (hole of a blocks, then b bytes)
+# op = (kind, a, b): 0 dir with `a` entries of name length `b` (name prefix variant from b: plain / leading dots / dashes / high bytes); 1 regular file of size a*b bytes (+1 if b odd);
+# 2 symlink of length a; 3 xattr (value length a) on a new file; 4 sparse file (hole of a blocks, then b bytes);
+# 5 extent files mixing written and unwritten extents that are logically and physically adjacent, in a needlessly deep tree (root split with the debugfs extent editor);
+# 6 split the extent-tree root of an existing template file (tree deeper than needed -> e2fsck offers to rebuild it)
+NAME_PREFIX = ['', '', '', '.', '..', '..a', '...', '-', '~', '#', '\xc3\xa9', '\xff\xfe']
+NKINDS = 7
 def extras_script(ops, blobdir, bs):
     c = []
     for i, (kind, a, b) in enumerate(ops):
-        kind %= 5
+        kind %= NKINDS
         if kind == 0:
-            n = 1 + a % 900; ln = 1 + b % 250
+            n = 1 + a % 900; ln = 1 + b % 250; pfx = NAME_PREFIX[(a + b) % len(NAME_PREFIX)]
             c += ['mkdir x%d' % i, 'cd x%d' % i]
             for k in range(n):
-                nm = ('%04d' % k + 'q' * ln)[:max(ln, 4)]
+                nm = (pfx + '%04d' % k + 'q' * ln)[:max(ln, len(pfx) + 4)]
                 c.append('write /dev/null %s' % nm)
+            if pfx.startswith('.'): c += ['write /dev/null %s' % pfx + 'data', 'write /dev/null ...', 'mkdir ..dir']
             c += ['cd /']
         elif kind == 1:
             size = (a % 400) * (1 + b % 3000) + (b & 1)
@@ -190,4 +196,32 @@ def extras_script(ops, blobdir, bs):
             if not os.path.exists(p):
                 with open(p, 'wb') as f: f.seek(hole * bs); f.write(bytes([65 + (b % 20)]) * tail)
             c.append('write %s x%d' % (p, i))
+        elif kind == 6:
+            for nm in (['/frag', '/big', '/sparse'][a % 3],):
+                c += ['extent_open %s' % nm, 'root', 'split_node', 'extent_close']
     return c
+
+def extras_apply(tools, img, ops, blobdir, bs, extent_fs=True):
+    """runs the generated population; kind 5 needs a block lookup between two debugfs runs"""
+    ops = [tuple(o) for o in ops]
+    scr = extras_script(ops, blobdir, bs)
+    if scr: tools.dbg(img, scr, write=True, cpu=180)
+    for i, (kind, a, b) in enumerate(ops):
+        if kind % NKINDS != 5 or not extent_fs: continue
+        nw = 4 + a % 20; nu = 4 + b % 40
+        junk = _blob(blobdir, 'junk-%d' % bs, 96 * bs, 77); fdata = _blob(blobdir, 'mxf-%d-%d' % (nw, bs), nw * bs, 78 + nw)
+        fsrc = os.path.join(blobdir, 'mxfsrc-%d-%d-%d' % (nw, nu, bs))
+        if not os.path.exists(fsrc):
+            with open(fsrc, 'wb') as f: f.write(open(fdata, 'rb').read()); f.truncate((nw + nu) * bs)
+        gdata = _blob(blobdir, 'mxg-%d-%d' % (nw + nu, bs), (nw + nu) * bs, 79 + nu)
+        # f: written blocks followed by preallocated (unwritten) blocks that sit on a deleted file's non-zero bytes; g: data file whose first part is turned into an unwritten extent
+        filler = _blob(blobdir, 'filler-%d' % bs, 260 * bs, 76)      # soaks up the single-block holes of a fragmented template so that the files below are contiguous
+        tools.dbg(img, ['write %s fill%d' % (filler, i), 'write %s junk%d' % (junk, i), 'rm junk%d' % i, 'write %s mxf%d' % (fsrc, i), 'fallocate mxf%d %d %d' % (i, nw, nw + nu - 1), 'write %s mxg%d' % (gdata, i)], write=True, cpu=60)
+        r = tools.dbg(img, ['bmap mxg%d 0' % i, 'bmap mxg%d %d' % (i, nw + nu - 1)])
+        try:
+            v = [int(l.split()[-1]) for l in r.out.strip().splitlines() if l and l.split()[-1].isdigit()]; gp, ge = v[-2], v[-1]
+        except Exception: continue
+        ed = ['extent_open mxf%d' % i, 'root', 'split_node', 'extent_close']
+        if ge - gp == nw + nu - 1:   # one contiguous extent: make its first part unwritten (as if preallocated and only the tail written)
+            ed = ['extent_open mxg%d' % i, 'root', 'replace_node %d %d %d' % (nu, nw, gp + nu), 'insert_node --uninit 0 %d %d' % (nu, gp), 'root', 'split_node', 'extent_close'] + ed
+        tools.dbg(img, ed, write=True, cpu=60)
